@@ -103,7 +103,7 @@ func runWorkerProc(bin string, envs []string, timeout time.Duration) (stderr str
 			cmd.Process.Kill()
 			<-done
 		}
-		return tail2(eb.String(), 20000), -1, true
+		return tail2(eb.String(), 4<<20), -1, true
 	}
 }
 
@@ -232,6 +232,8 @@ func orchestrate() int {
 	if n := envInt("VERIF_N", 0); n > 0 {
 		total = n
 	}
+	genTotal, genRaceFrac = total, cd.RaceFrac
+	raceStart := raceFrom(total, cd.RaceFrac)
 	workers := envInt("VERIF_WORKERS", 16)
 	chunk := cd.Chunk
 	if chunk == 0 {
@@ -253,8 +255,11 @@ func orchestrate() int {
 	var wg sync.WaitGroup
 	var harnessTrouble []string
 	var htMu sync.Mutex
-	budget := time.Duration(envInt("VERIF_CHUNK_TIMEOUT_S", 300)) * time.Second
-	bin := workerBin(cd, cd.NeedsRace)
+	budgetS := 300
+	if cd.TimeoutS > 0 {
+		budgetS = cd.TimeoutS
+	}
+	budget := time.Duration(envInt("VERIF_CHUNK_TIMEOUT_S", budgetS)) * time.Second
 	deadline := time.Time{}
 	if s := envInt("VERIF_BUDGET_S", 0); s > 0 {
 		deadline = t0.Add(time.Duration(s) * time.Second)
@@ -271,7 +276,9 @@ func orchestrate() int {
 				for from < job.to {
 					out := filepath.Join(tmp, fmt.Sprintf("w%d-%d.jsonl", wi, from))
 					envs := []string{"VERIF_MODE=worker", "VERIF_PROP=" + prop, fmt.Sprintf("VERIF_SEED=%d", seed), "VERIF_TIER=" + tier,
-						fmt.Sprintf("VERIF_FROM=%d", from), fmt.Sprintf("VERIF_TO=%d", job.to), "VERIF_OUT=" + out, "VERIF_SCRATCH=" + tmp}
+						fmt.Sprintf("VERIF_FROM=%d", from), fmt.Sprintf("VERIF_TO=%d", job.to), "VERIF_OUT=" + out, "VERIF_SCRATCH=" + tmp,
+						fmt.Sprintf("VERIF_TOTAL=%d", total), "GORACE=halt_on_error=1 exitcode=66"}
+					bin := workerBin(cd, cd.NeedsRace || from >= raceStart)
 					stderr, code, timedOut := runWorkerProc(bin, envs, budget)
 					results, lastStart := readResults(out)
 					os.Remove(out)
@@ -297,12 +304,16 @@ func orchestrate() int {
 			}
 		}(wi)
 	}
-	for f := 0; f < total; f += chunk {
+	for f := 0; f < total; {
 		t := f + chunk
 		if t > total {
 			t = total
 		}
+		if f < raceStart && t > raceStart {
+			t = raceStart // a chunk never straddles the boundary of the race stratum
+		}
 		jobs <- workerJob{f, t}
+		f = t
 	}
 	close(jobs)
 	wg.Wait()
@@ -479,8 +490,8 @@ func runOne(cd *CheckDef, sc *Scenario, timeout time.Duration) (*Result, string)
 	in := filepath.Join(tmp, "sc.json")
 	out := filepath.Join(tmp, "res.json")
 	os.WriteFile(in, sc.JSON(), 0o644)
-	bin := workerBin(cd, cd.NeedsRace)
-	stderr, code, timedOut := runWorkerProc(bin, []string{"VERIF_MODE=one", "VERIF_SCENARIO=" + in, "VERIF_OUT=" + out, "VERIF_SCRATCH=" + tmp}, timeout)
+	bin := workerBin(cd, cd.NeedsRace || (sc.Sched != nil && sc.Sched.Race))
+	stderr, code, timedOut := runWorkerProc(bin, []string{"VERIF_MODE=one", "VERIF_SCENARIO=" + in, "VERIF_OUT=" + out, "VERIF_SCRATCH=" + tmp, "GORACE=halt_on_error=1 exitcode=66"}, timeout)
 	b, err := os.ReadFile(out)
 	if err != nil {
 		r := &Result{Idx: sc.Idx, Status: "crash", Note: fmt.Sprintf("exit %d timeout=%v: %s", code, timedOut, firstLine(lastNonEmpty(stderr)))}
@@ -519,7 +530,7 @@ func replayMain(cd *CheckDef, path string) int {
 		fmt.Fprintln(os.Stderr, err)
 		return 2
 	}
-	r, stderr := runOne(cd, &sc, 10*time.Minute)
+	r, stderr := runOne(cd, &sc, oneTimeout(cd))
 	if r == nil {
 		fmt.Fprintln(os.Stderr, "replay failed to execute:", stderr)
 		return 2
@@ -559,7 +570,7 @@ func witnessStillViolates(cd *CheckDef, k *KnownFinding) bool {
 	if json.Unmarshal(b, &sc) != nil {
 		return false
 	}
-	r, _ := runOne(cd, &sc, 10*time.Minute)
+	r, _ := runOne(cd, &sc, oneTimeout(cd))
 	return hasClass(r, k.Oracle, k.Class) != nil
 }
 
@@ -645,4 +656,37 @@ func writeEvidence(cd *CheckDef, tier string, seed uint64, agg *aggregate, wall 
 	dir := filepath.Join(verifRoot(), "evidence")
 	os.MkdirAll(dir, 0o755)
 	os.WriteFile(filepath.Join(dir, cd.Prop+".json"), b, 0o644)
+}
+
+func oneTimeout(cd *CheckDef) time.Duration {
+	if cd.TimeoutS > 0 {
+		return time.Duration(cd.TimeoutS) * time.Second
+	}
+	return 10 * time.Minute
+}
+
+// runningModelFrame inspects a SIGQUIT goroutine dump: if a goroutine that is
+// running or runnable (not blocked) is inside package hermes, the file of its
+// innermost hermes frame is returned.
+func runningModelFrame(dump string) string {
+	for _, blk := range strings.Split(dump, "\n\n") {
+		hdr := firstLine(strings.TrimSpace(blk))
+		if !strings.HasPrefix(hdr, "goroutine ") || !(strings.Contains(hdr, "[running") || strings.Contains(hdr, "[runnable")) {
+			continue
+		}
+		for _, l := range strings.Split(blk, "\n") {
+			l = strings.TrimSpace(l)
+			if k := strings.Index(l, "/hermes/"); k >= 0 && strings.Contains(l, ".go:") && !strings.Contains(l, "/src/hermes2go/") {
+				w := l[k+1:]
+				if sp := strings.IndexByte(w, ' '); sp > 0 {
+					w = w[:sp]
+				}
+				if i := strings.LastIndexByte(w, ':'); i > 0 {
+					w = w[:i]
+				}
+				return w
+			}
+		}
+	}
+	return ""
 }
